@@ -25,15 +25,17 @@ RULE = (
     "arrived within one period"
 )
 ASSUMPTIONS = [
-    "virtual time in exact dyadic units (P = 1.0)",
+    "virtual time in exact dyadic units (P = 1.0 as float, 1.5 s as timedelta)",
     "arrival order = order in which the wrapper was invoked",
 ]
 BOUNDS = {"quick": {"n_max": 5}, "thorough": {"n_max": 7}}
 EXHAUSTIVE = {"quick": True, "thorough": True}
 SAMPLE_EVERY = {"quick": 3000, "thorough": 60000}
 
-P = 1.0
-GAPS = [0.0, 0.5, 1.0, 1.5]
+# period 1.0 when given as float; 1.5 s (a fractional timedelta: days/seconds/microseconds all
+# matter) when given as timedelta.  Gaps and durations are multiples of P/2 (dyadic in both cases).
+PERIODS = {"float": 1.0, "timedelta": 1.5}
+GAPS = [0.0, 0.5, 1.0, 1.5]  # in units of P
 
 
 class TErr(Exception):
@@ -45,7 +47,7 @@ def programs(tier: str):
     for n in range(1, n_max + 1):
         for gaps in itertools.product(GAPS, repeat=n - 1):
             for limit in (1, 2, 3):
-                for dur in (0.0, 0.5, 2.0):
+                for dur in (0.0, 0.5, 2.0):  # in units of P
                     for period in ("float", "timedelta"):
                         if period == "timedelta" and (dur != 0.5):
                             continue  # the period form does not interact with durations
@@ -66,7 +68,8 @@ def explore_config(tier: str, program) -> dict:
 
 
 def execute(program, ch: Chooser) -> Result:  # noqa: C901, PLR0912, PLR0915
-    gaps, limit, dur, fail = program["gaps"], program["limit"], program["dur"], program["fail"]
+    P = PERIODS[program["period"]]
+    gaps, limit, dur, fail = [g * P for g in program["gaps"]], program["limit"], program["dur"] * P, program["fail"]
     n = len(gaps) + 1
     w = World(ch)
     viols: list[dict] = []
